@@ -292,6 +292,14 @@ impl BaseBindingsGenerator for ZodBindingsGenerator {
                 &mut event_types,
             );
 
+            // A payload type's own field types are part of the payload as well
+            let direct_types = event_types.clone();
+            self.collector.discover_nested_dependencies(
+                &direct_types,
+                discovered_structs,
+                &mut event_types,
+            );
+
             // Add event payload types to used_structs
             for type_name in event_types {
                 if let Some(struct_info) = discovered_structs.get(&type_name) {
